@@ -110,6 +110,19 @@ fn cff2_deep_fields(out: &mut Vec<Field>, d: &[u8], hs: usize, tl: usize, rng: &
                     f(out, &format!("CFF2.charstring.first#g{}", g), s, 1, n);
                     f(out, &format!("CFF2.charstring.last#g{}", g), e - 1, 1, n);
                     f(out, &format!("CFF2.charstring.byte#g{}", g), s + rng.usize_below(e - s), 1, n);
+                    {
+                        // flex family (no corpus glyph uses it): moveto, arguments, 12 <op>
+                        let (op, nargs) = *rng.pick(&[(34u8, 7usize), (35, 13), (36, 9), (37, 11)]);
+                        let nargs = if rng.pct(80) { nargs } else { nargs.saturating_sub(1 + rng.usize_below(3)) };
+                        let mut prog = vec![139u8, 139, 21];
+                        for k in 0..nargs {
+                            prog.push((139 + 7 * (k as i32 % 5) - 10) as u8);
+                        }
+                        prog.extend_from_slice(&[12, op]);
+                        if e - s >= prog.len() {
+                            fw(out, &format!("CFF2.charstring.flex#g{}", g), s, prog, n);
+                        }
+                    }
                     // many operands before one path operator (CFF2 allows 513 stack entries)
                     let ops: [u8; 10] = [5, 6, 7, 8, 24, 25, 26, 27, 30, 31];
                     let nops = *rng.pick(&[47usize, 48, 49, 52, 96, 200, 512, 513, 514]);
@@ -454,6 +467,19 @@ fn cff_deep_fields(out: &mut Vec<Field>, d: &[u8], rng: &mut Rng) {
                     f(out, &format!("CFF.charstring.first#g{}", g), s, 1, n);
                     f(out, &format!("CFF.charstring.last#g{}", g), e - 1, 1, n);
                     f(out, &format!("CFF.charstring.byte#g{}", g), s + rng.usize_below(e - s), 1, n);
+                    {
+                        // flex family (no corpus glyph uses it): moveto, arguments, 12 <op>, endchar
+                        let (op, nargs) = *rng.pick(&[(34u8, 7usize), (35, 13), (36, 9), (37, 11)]);
+                        let nargs = if rng.pct(80) { nargs } else { nargs.saturating_sub(1 + rng.usize_below(3)) };
+                        let mut prog = vec![139u8, 139, 21];
+                        for k in 0..nargs {
+                            prog.push((139 + 7 * (k as i32 % 5) - 10) as u8);
+                        }
+                        prog.extend_from_slice(&[12, op, 14]);
+                        if e - s >= prog.len() {
+                            fw(out, &format!("CFF.charstring.flex#g{}", g), s, prog, n);
+                        }
+                    }
                     // `dx dy bchar achar endchar`: accented character built from two others
                     // (standard encoding codes), possibly from itself
                     let any_code = |rng: &mut Rng| -> u8 {
